@@ -166,3 +166,54 @@ func VerifC01Step() {
 	verifapi.Assert(after.Cmp(want) == 0, "c01.sum-preserved")
 	verifapi.Assert(after.Cmp(w.statsTotal()) == 0, "c01.stats-total-is-true-sum-after")
 }
+
+// VerifC01Concurrent: two clients that share a host send their keep-alives
+// at the same time; at quiescence the ledger sum is unchanged (with the
+// persistent driver this includes the optimistic-transaction conflicts the
+// two updates provoke on the shared host's balance).
+func VerifC01Concurrent() {
+	price := big.NewInt(100000000000)
+	db := newVerifStore()
+	w := &verifWorld{db: db, paid: new(big.Int), hosts: map[store.NodeID]*pool.VerifHost{}}
+	w.wallets = []store.Account{store.Account(verifapi.Wallet(0)), store.Account(verifapi.Wallet(1))}
+	w.dep = &pool.VerifDeposits{Store: db, Deposit: map[store.Account]*big.Int{}}
+	w.p = pool.VerifNewPool(db, w.dep, price, 60000000000, nil)
+	t0 := verifapi.Time("t0")
+	verifapi.SetNow(t0)
+	host := store.NodeID(verifapi.NodeID(1))
+	clients := []store.NodeID{store.NodeID(verifapi.NodeID(0)), store.NodeID(verifapi.NodeID(2))}
+	w.nodes = []store.NodeID{clients[0], host, clients[1]}
+	db.SetNode(store.Node{ID: host, IsHost: true, Kind: "geth", LastSeen: t0, URI: "enode://h@192.0.2.1:30303"})
+	if verifapi.Bool("hostlinked") {
+		db.AddAccountNode(w.wallets[0], host)
+	}
+	for i, c := range clients {
+		db.SetNode(store.Node{ID: c, Kind: "geth", LastSeen: t0})
+		if verifapi.Bool(fmt.Sprint("clientlinked", i)) {
+			db.AddAccountNode(w.wallets[1], c)
+		}
+		db.AddNodeBalance(c, verifapi.BigInt(fmt.Sprint("credit", i)))
+		db.UpdateNodePeers(c, []string{string(host)}, 0)
+	}
+	dt := verifapi.Dur("dt")
+	verifapi.Assume(dt > 60000000000 && dt < 100000000000) // something to bill, host still active
+	verifapi.SetNow(t0.Add(dt))
+	db.UpdateNodePeers(host, nil, 0)
+	before := w.total()
+	done := make(chan error, 2)
+	for _, c := range clients {
+		go func(c store.NodeID) {
+			_, err := pool.VerifUpdate(w.p, context.Background(), string(c), string(host))
+			done <- err
+		}(c)
+	}
+	for range clients {
+		<-done
+	}
+	verifapi.Reach("c01.concurrent")
+	if verifapi.KVConflicts() > 0 || verifapi.Param("driver", 0) == 0 { // (the memory driver has no conflicts to explore)
+		verifapi.Reach("c01.concurrent.conflict-path-explored")
+	}
+	verifapi.Class("peer-credit-conflict-ignored", verifapi.KVConflicts() > 0)
+	verifapi.Assert(w.total().Cmp(before) == 0, "c01.concurrent-sum-preserved")
+}
